@@ -375,7 +375,8 @@ def clause_gcf_pairing(ctx):
     allowed = {"IndentationFitter._fit"}
     for q, f in F.mod.funcs.items():
         if not q.startswith("IndentationFitter.") or q in allowed or \
-                q == "IndentationFitter._hash":
+                q == "IndentationFitter._hash" or getattr(
+                    f, "_inlined_helper", False):
             continue
         for n in walk_no_nested(f, False):
             if isinstance(n, ast.Subscript) and const_str(n.slice) == \
@@ -985,7 +986,8 @@ def clause_residual_shape(ctx):
     ctx.analysed(fn)
     R = Resolver(fn)
     rets = [r for r in walk_no_nested(fn, False) if isinstance(r, ast.Return)]
-    if len(rets) != 1 or not isinstance(rets[0].value, ast.Name):
+    if not rets or not all(isinstance(r.value, ast.Name) for r in rets) or \
+            len({r.value.id for r in rets}) != 1:
         raise Undecided("residual() does not return a single local")
     rv = rets[0].value.id
     base = [s for s in walk_no_nested(fn, False) if isinstance(s, ast.Assign)
